@@ -10,6 +10,7 @@ Require Import Coq.Reals.Reals Coq.Lists.List Coq.Arith.Arith Coq.Bool.Bool Coq.
 Require Import OQ.Base.Ring OQ.Base.Sums OQ.Base.Bits OQ.Base.Mat OQ.Base.MatLin OQ.Gates.CR OQ.Gates.Trig
         OQ.Pauli.Algebra OQ.Pauli.Den OQ.Circ.Circuit OQ.Circ.CircuitProofs OQ.Pauli.Evolution OQ.Pauli.EvolutionSem
         OQ.Pauli.EvolutionSmall OQ.Pauli.EvolutionProofs OQ.Pauli.EvolutionGeneral OQ.Pauli.MatCalculus.
+Require Export OQ.Pauli.EvolutionCode.
 Import ListNotations.
 
 Local Notation Cadd := (@OQ.Base.Ring.cadd CRring).
@@ -642,40 +643,8 @@ Proof.
 Qed.
 
 (* ------------------------------------------------------------------ constant terms: the code's factors are +c/N and -c/N
-   (the model records 0 for them); the two circuits coincide, so the weighted sum is the same for ANY value kc i *)
-Definition coef_g (kc : nat -> Q) (h : list hterm) (i : nat) : Q :=
-  match List.nth i h HConst with HTerm c _ => c | _ => kc i end.
-
-Definition single_derivatives_g (kc : nat -> Q) (h : list hterm) (time : Q) (steps : nat)
-  : list (Q * option (list (eop sangle))) :=
-  let n := inject_Z (Z.of_nat steps) in
-  flat_map (fun i =>
-    map (fun s : Z =>
-           ((coef_g kc h i / n * inject_Z s)%Q,
-            concat_opt (map (fun j => evolve_term_s (List.nth j h HConst) (time / n)%Q (if Nat.eqb i j then s else 0%Z))
-                            (seq 0 (List.length h)))))
-        [1%Z; (-1)%Z])
-    (seq 0 (List.length h)).
-
-Definition derivatives_g (kc : nat -> Q) (h : list hterm) (time : Q) (steps : nat) : list (Q * option (list (eop sangle))) :=
-  let singles := single_derivatives_g kc h time steps in
-  if Nat.leb steps 1 then singles
-  else
-    let n := inject_Z (Z.of_nat steps) in
-    let rep := concat_opt (map (fun tm => evolve_term_s tm (time / n)%Q 0%Z) h) in
-    flat_map (fun pos => map (fun fd => (fst fd, seq_circ rep (snd fd) steps pos)) singles) (seq 0 steps).
-
-Lemma coef_g_0 h i : coef_g (fun _ => 0%Q) h i = coef_of (List.nth i h HConst).
-Proof. unfold coef_g, coef_of. destruct (List.nth i h HConst); reflexivity. Qed.
-
-Lemma derivatives_g_0 h q N : derivatives_g (fun _ => 0%Q) h q N = derivatives h q N.
-Proof.
-  assert (E : single_derivatives_g (fun _ => 0%Q) h q N = single_derivatives h q N).
-  { unfold single_derivatives_g, single_derivatives. cbv zeta. apply flat_map_ext. intro i. apply map_ext. intro s.
-    rewrite coef_g_0. reflexivity. }
-  unfold derivatives_g, derivatives. cbv zeta. rewrite E. reflexivity.
-Qed.
-
+   (the model records 0 for them; Pauli/EvolutionCode.v: derivatives_g); the two circuits coincide, so the weighted sum is
+   the same for ANY value kc i *)
 Definition fac_g (kc : nat -> Q) (h : list hterm) (N i : nat) (s : Z) : Q :=
   (coef_g kc h i / inject_Z (Z.of_nat N) * inject_Z s)%Q.
 
@@ -740,6 +709,39 @@ Theorem derivative_clause_g : forall (kc : nat -> Q) n (h : list hterm) (N : nat
   cderiv (fun x : R => expect (2 ^ n) O (U_sem n h N x) psi) (Q2R q) (dsum n O psi (derivatives_g kc h q N)).
 Proof.
   intros kc n h N O psi q H HN. rewrite (dsum_derivatives_g kc n h N O psi q H HN). apply derivative_clause; assumption.
+Qed.
+
+(* ------------------------------------------------------------------ exactly what the code returns: [derivatives_code] is None
+   when the call raises (a zero real coefficient, or a rejected imaginary part), otherwise the returned list *)
+Theorem derivative_clause_code : forall (kc : nat -> Q) n (h : list hterm) (N : nat) (O : Mat CRring) (psi : Vec CRring) (q : Q)
+    (ds : list (Q * option (list (eop sangle)))),
+  hwf n h -> (1 <= N)%nat -> derivatives_code kc h q N = Some ds ->
+  cderiv (fun x : R => expect (2 ^ n) O (U_sem n h N x) psi) (Q2R q) (dsum n O psi ds).
+Proof.
+  intros kc n h N O psi q ds H HN E. destruct (derivatives_code_inv kc h q N ds E) as [-> _].
+  apply derivative_clause_g; assumption.
+Qed.
+
+Lemma hwf_not_in_imag n h : hwf n h -> ~ In HImag h.
+Proof. intros H Hin. exact (hwf_no_imag_in n h H HImag Hin eq_refl). Qed.
+
+(* with the hypothesis "no coefficient is zero" visible: the call returns, and what it returns satisfies the clause *)
+Theorem derivative_clause_code_nonzero : forall (kc : nat -> Q) n (h : list hterm) (N : nat) (O : Mat CRring) (psi : Vec CRring) (q : Q),
+  hwf n h -> (1 <= N)%nat -> (forall i, (i < List.length h)%nat -> ~ (coef_g kc h i == 0)%Q) ->
+  exists ds, derivatives_code kc h q N = Some ds /\
+             Forall (fun fd => snd fd <> None) ds /\
+             cderiv (fun x : R => expect (2 ^ n) O (U_sem n h N x) psi) (Q2R q) (dsum n O psi ds).
+Proof.
+  intros kc n h N O psi q H HN Hz. exists (derivatives_g kc h q N).
+  pose proof (derivatives_code_some kc h q N Hz (hwf_not_in_imag n h H)) as E.
+  split; [exact E|]. split; [|apply (derivative_clause_code kc n h N O psi q _ H HN E)].
+  unfold derivatives_g. cbv zeta. rewrite (single_derivatives_g_eq kc h q N (hwf_no_imag n h H)).
+  apply Forall_forall. intros x Hx. destruct (Nat.leb N 1).
+  - apply in_flat_map in Hx. destruct Hx as [i [_ Hx]]. apply in_map_iff in Hx. destruct Hx as [s [<- _]]. discriminate.
+  - rewrite (rep_eq h _ (hwf_no_imag_in n h H)) in Hx.
+    apply in_flat_map in Hx. destruct Hx as [pos [_ Hx]]. apply in_map_iff in Hx. destruct Hx as [fd [<- Hfd]].
+    apply in_flat_map in Hfd. destruct Hfd as [i [_ Hfd]]. apply in_map_iff in Hfd. destruct Hfd as [s [<- _]].
+    cbn [fst snd]. rewrite seq_circ_some. discriminate.
 Qed.
 
 (* ------------------------------------------------------------------ the hypotheses are satisfiable *)
